@@ -73,6 +73,27 @@ def run(v, O):
     out.append(('a+b: mass fractions of the sum add up to 100', O.eq(ds.X, 100, 1e-9)))
     return out
 '''
+TEXT_SRC = '''
+def run(v, O):
+    out = []
+    for text, want in v.cases:
+        r = None
+        try:
+            r = Substance(text, natural=v.natural)
+        except Exception as e:
+            out.append((f'{text}: parses', O.same(type(e).__name__, None)))
+            continue
+        got = {k: float(c.proportion) for k, c in r.components.items()}
+        out.append((f'{text}: species and counts', O.same(got, {k: float(n) for k, n in want.items()})))
+        d = r.data_composite(quantity=False)['sum']
+        out.append((f'{text}: total mass is the count-weighted sum', O.eq(d.mass, sum(n * species_data(k, v.natural)[0] for k, n in want.items()), 1e-9)))
+        out.append((f'{text}: total electrons', O.eq(d.e, sum(n * species_data(k, v.natural)[3] for k, n in want.items()), 1e-9)))
+    return out
+'''
+# formulas with counts written as decimal numbers (the forms the unchanged library reads), long integer counts, blanks
+TEXTS = [('Fe2O1.5', {'Fe': 2, 'O': 1.5}), ('(OH1.5)2', {'O': 2, 'H': 3}), ('OH1.25', {'O': 1, 'H': 1.25}), ('[n]1.5', {'[n]': 1.5}), ('H0.5', {'H': 0.5}), ('O * 1.5 + H', {'O': 1.5, 'H': 1}),
+         ('O{16}1.5 + H', {'O{16}': 1.5, 'H': 1}), ('C12H22O11', {'C': 12, 'H': 22, 'O': 11}), ('H10O1', {'H': 10, 'O': 1}), ('(NH4)Cl', {'N': 1, 'H': 4, 'Cl': 1}), ('(OH) Na', {'O': 1, 'H': 1, 'Na': 1}),
+         ('([p][e])[n]', {'[p]': 1, '[e]': 1, '[n]': 1}), ('Ca((OH)Na)2', {'Ca': 1, 'O': 2, 'H': 2, 'Na': 2}), ('CH3 + COOH', {'C': 2, 'H': 4, 'O': 2}), ('H2 * 1.5', {'H': 3})]
 DICT_SRC = '''
 def run(v, O):
     s = Substance({v.s1: v.n1, v.s2: v.n2, v.s3: v.n3}, natural=v.natural)
@@ -215,6 +236,8 @@ def scenarios(tier, seed):
         S.append(Scenario(f'formula/hydrogen-isotopes/{j}', SUB_SRC, {'n1': 'count', 'n2': 'count'},
                           consts={'tree': [('sp', 'D{+}', 'n1'), ('grp', [('sp', 'O{-2}', None), ('sp', 'T{+}', 'n2')], None), ('sp', 'T', None)], 'style': j, 'natural': nat}, preamble=PRE,
                           what='formula with charged D and T', samples=1))
+    for j, nat in enumerate((True, False)):
+        S.append(Scenario(f'texts/{j}', TEXT_SRC, {}, consts={'cases': TEXTS, 'natural': nat}, preamble=PRE, what='formulas with decimal and multi-digit counts, bare groups and blanks (concrete)', samples=1))
     S.append(Scenario('canary/count', SUB_SRC.replace('O.eq(s.components[k].proportion, cnt)', 'O.eq(s.components[k].proportion, cnt + 1)'), {'n1': 'count', 'n2': 'count'},
                       consts={'tree': [('sp', 'Ca', None), ('grp', [('sp', 'O', None), ('sp', 'H', 'n1')], 'n2')], 'style': 0, 'natural': True}, preamble=PRE, canary=True))
     S.append(Scenario('canary/sum', SUB_SRC.replace("tot['Z'] + cnt * Z", "tot['Z'] + cnt * Z * 1.001"), {'n1': 'count', 'n2': 'count'},
